@@ -32,21 +32,88 @@ pub type Id = String;
 pub struct Statement {
     pub sid: Option<Sid>,
 
-    #[serde(flatten)]
+    #[serde(flatten, deserialize_with = "de_principal_rule")]
     pub principal: Option<PrincipalRule>,
 
     pub effect: Effect,
 
-    #[serde(flatten)]
+    #[serde(flatten, deserialize_with = "de_action_rule")]
     pub action: ActionRule,
 
-    #[serde(flatten)]
+    #[serde(flatten, deserialize_with = "de_resource_rule")]
     pub resource: ResourceRule,
 
     pub condition: Option<ConditionRule>,
 }
 
 pub type Sid = String;
+
+// The flattened rule enums are decoded through helper structs: a flattened enum takes the first member it knows and
+// ignores the rest, and a flattened `Option` turns a malformed value into `None`. A statement must instead be refused
+// when a member is malformed, written twice, or given together with its `Not...` counterpart.
+
+fn de_principal_rule<'de, D>(deserializer: D) -> Result<Option<PrincipalRule>, D::Error>
+where
+    D: serde::Deserializer<'de>,
+{
+    #[derive(Deserialize)]
+    struct Members {
+        #[serde(rename = "Principal")]
+        plain: Option<Principal>,
+        #[serde(rename = "NotPrincipal")]
+        negated: Option<Principal>,
+    }
+
+    let members = Members::deserialize(deserializer)?;
+    match (members.plain, members.negated) {
+        (Some(_), Some(_)) => Err(serde::de::Error::custom("`Principal` and `NotPrincipal` are mutually exclusive")),
+        (Some(p), None) => Ok(Some(PrincipalRule::Principal(p))),
+        (None, Some(p)) => Ok(Some(PrincipalRule::NotPrincipal(p))),
+        (None, None) => Ok(None),
+    }
+}
+
+fn de_action_rule<'de, D>(deserializer: D) -> Result<ActionRule, D::Error>
+where
+    D: serde::Deserializer<'de>,
+{
+    #[derive(Deserialize)]
+    struct Members {
+        #[serde(rename = "Action")]
+        plain: Option<WildcardOneOrMore<String>>,
+        #[serde(rename = "NotAction")]
+        negated: Option<WildcardOneOrMore<String>>,
+    }
+
+    let members = Members::deserialize(deserializer)?;
+    match (members.plain, members.negated) {
+        (Some(_), Some(_)) => Err(serde::de::Error::custom("`Action` and `NotAction` are mutually exclusive")),
+        (Some(a), None) => Ok(ActionRule::Action(a)),
+        (None, Some(a)) => Ok(ActionRule::NotAction(a)),
+        (None, None) => Err(serde::de::Error::missing_field("Action")),
+    }
+}
+
+fn de_resource_rule<'de, D>(deserializer: D) -> Result<ResourceRule, D::Error>
+where
+    D: serde::Deserializer<'de>,
+{
+    #[derive(Deserialize)]
+    struct Members {
+        #[serde(rename = "Resource")]
+        plain: Option<WildcardOneOrMore<String>>,
+        #[serde(rename = "NotResource")]
+        negated: Option<WildcardOneOrMore<String>>,
+    }
+
+    let members = Members::deserialize(deserializer)?;
+    match (members.plain, members.negated) {
+        (Some(_), Some(_)) => Err(serde::de::Error::custom("`Resource` and `NotResource` are mutually exclusive")),
+        (Some(r), None) => Ok(ResourceRule::Resource(r)),
+        (None, Some(r)) => Ok(ResourceRule::NotResource(r)),
+        (None, None) => Err(serde::de::Error::missing_field("Resource")),
+    }
+}
 
 #[derive(Debug, Clone, PartialEq, Eq, Serialize, Deserialize)]
 pub enum PrincipalRule {
